@@ -319,4 +319,51 @@ theorem listAll_terminates {α} (srv : Server α) (N : Int) (h : Echoes srv N) (
             have h2 := this.2
             omega
 
+theorem pageCount_le (n p : Nat) (hp : 0 < p) : pageCount n p ≤ n := by
+  rcases Nat.eq_zero_or_pos n with h | h
+  · subst h; rw [pageCount_zero p hp]; exact Nat.le_refl 0
+  · have := lt_pageCount_iff n p n hp
+    have h2 : n ≤ n * p := Nat.le_mul_of_pos_right n hp
+    omega
+
+theorem goodServer_echoes {α} (sel : Option String → Option String → α → Bool) (xs : List α) :
+    Echoes (goodServer sel xs) xs.length := by
+  intro i rq r h
+  unfold goodServer at h
+  split at h
+  · cases h
+  · rename_i k p hk hp
+    dsimp only at h
+    split at h
+    · rename_i hc
+      cases h
+      refine ⟨?_, ?_⟩
+      · intro pg hpg; cases hpg; exact hk
+      · intro pc hpc; cases hpc
+        have h1 := pageCount_le (List.filter (sel (rq.params.getStr "name") (rq.params.getStr "use_regex")) xs).length p.toNat (by omega)
+        have h2 := List.length_filter_le (sel (rq.params.getStr "name") (rq.params.getStr "use_regex")) xs
+        omega
+    · cases h
+  · cases h
+
+theorem hexUpper_unreserved : ∀ n, n < 16 → isUnreserved (hexUpper n) = true := by decide
+
+/-- `quote(s, '')` emits only unreserved characters and `%` -/
+theorem quote_chars (s : String) : ∀ c ∈ (quote s).toList, isUnreserved c = true ∨ c = '%' := by
+  intro c hc
+  simp only [quote, String.toList_ofList, List.mem_flatMap] at hc
+  obtain ⟨a, _, hca⟩ := hc
+  split at hca
+  · rename_i hu
+    simp only [List.mem_singleton] at hca
+    subst hca; exact Or.inl hu
+  · simp only [List.mem_flatMap] at hca
+    obtain ⟨b, _, hcb⟩ := hca
+    simp only [List.mem_cons, List.not_mem_nil, or_false] at hcb
+    have hb : b.toNat < 256 := UInt8.toNat_lt b
+    rcases hcb with h | h | h
+    · exact Or.inr h
+    · subst h; exact Or.inl (hexUpper_unreserved _ (by omega))
+    · subst h; exact Or.inl (hexUpper_unreserved _ (by omega))
+
 end Amqp.Paging
